@@ -548,14 +548,21 @@ class GenVC(NativeVC):
         for w in (1, 2, 15, 16, 17, 255, 256, 0x7FFF, 0xFFFE, 0xFFFF, 0x10000, 0xFFFFFE, 0xFFFFFF, 0x1000000, 0xFFFFFFFE, 0xFFFFFFFF):
             if lo <= w <= hi:
                 cands.append(w)
+        # values of like-named fields collide often (two entries of the same service, ...)
+        suffix = name.rsplit(".", 1)[-1]
+        seen = self.pool.setdefault(("int", suffix), [])
         k = r.random()
-        if k < 0.5:
+        if seen and k < 0.35:
+            v = r.choice(seen)
+        elif k < 0.6:
             v = r.choice(cands)
-        elif k < 0.8:
+        elif k < 0.85:
             v = r.randint(lo, min(hi, lo + 20))
         else:
             v = r.randint(lo, hi)
-        return self._rec(name, max(lo, min(hi, v)))
+        v = max(lo, min(hi, v))
+        seen.append(v)
+        return self._rec(name, v)
 
     def bool(self, name):
         return self._rec(name, self.rng.random() < 0.5)
